@@ -1,6 +1,7 @@
 import Rtsp.Props.C15
 import Rtsp.Props.Bridge.Time
 import Rtsp.Props.Bridge.Recv
+import Rtsp.Props.Bridge.Ntp
 #print axioms Rtsp.C15.facts_shape
 #print axioms Rtsp.C15.pts_diff_eq_sum_of_signed_deltas
 #print axioms Rtsp.C15.pts_step_exact
@@ -33,3 +34,8 @@ import Rtsp.Props.Bridge.Recv
 #print axioms Rtsp.Bridge.Time.decode_eq
 #print axioms Rtsp.Bridge.Time.multiplyAndDivide_eq
 #print axioms Rtsp.Bridge.Recv.ntpTimeDiff_eq
+#print axioms Rtsp.Bridge.Ntp.decSecs_eq
+#print axioms Rtsp.Bridge.Ntp.decNanos_eq
+#print axioms Rtsp.Bridge.Ntp.encParts_eq
+#print axioms Rtsp.Bridge.Ntp.encPack_eq
+#print axioms Rtsp.Bridge.Ntp.ntpTimeDiffGo_eq
